@@ -114,3 +114,13 @@ def OpT(name: str, a: list, b: ty.Optional[list] = None, fail: ty.Any = ()) -> l
     """typed variant of Op (list in, list out)"""
     _log(json.dumps([name, a, b], default=repr))
     return [name, a] if b is None else [name, a, b]
+
+
+@python.define
+def OpSlow(name: str, a: ty.Any = None) -> ty.Any:
+    """body that gives the scheduler two opportunities to run somebody else while it executes"""
+    import time
+    _log(json.dumps([name, a, None], default=repr))
+    time.sleep(0.001)
+    time.sleep(0.001)
+    return [name, a]
